@@ -508,3 +508,52 @@ ENGINES = [
     {"name": "faults", "path": "harness/vfaults/src/bin/faults.rs, harness/vudp/src/bin/udp_export.rs", "serves_properties": ["C19", "C20"],
      "kind_free_text": "one child process per injected fault / crash point"},
 ]
+
+
+# ---- sanitizer passes (thorough tier only): the same engines, rebuilt under one sanitizer family each ----
+def san_step(name, san, pkg, binary, args, timeout_s=1700, **kw):
+    s = {"name": name, "kind": "sanitizer", "san": san, "pkg": pkg, "bin": binary, "args": list(args), "timeout_s": timeout_s}
+    s.update(kw)
+    return s
+
+
+def miri_shards(name, pkg, binary, n, args, **kw):
+    # one `cargo miri run` is single-threaded: several small processes, each with its own shard of the PRNG stream
+    return [san_step("miri_%s_s%d" % (name, i), "miri", pkg, binary, list(args) + ["--shard", str(101 + i)], **kw) for i in range(n)]
+
+
+def _with_sanitizers(prop, extra):
+    base = PLANS[prop]["steps"]
+    PLANS[prop]["steps"] = lambda tier, seed: base(tier, seed) + (extra(seed) if tier == "thorough" else [])
+    PLANS[prop].setdefault("sanitizers", [])
+
+
+SAN_NOTE = {
+    "miri": " Sanitizer pass (thorough): the same engine runs under Miri (Tree Borrows; undefined behaviour, invalid borrows, data races) in several small shards.",
+    "tsan": " Sanitizer pass (thorough): the stress and schedule-enumeration engines are rebuilt with ThreadSanitizer (-Zbuild-std) and any report is a violation.",
+    "asan": " Sanitizer pass (thorough): the live engine with the io_uring backend (the only place with hand-written unsafe buffer code) is rebuilt with AddressSanitizer; any report is a violation.",
+}
+
+_with_sanitizers("C01", lambda seed: miri_shards("udp_swarm", "vudp", "udp_swarm", 4, ["--histories", "12", "--budget_s", "240"]))
+PLANS["C01"]["level_text"] += SAN_NOTE["miri"]
+_with_sanitizers("C07", lambda seed: miri_shards("http_swarm", "vhttp", "http_swarm", 4, ["--histories", "10", "--budget_s", "240"]))
+PLANS["C07"]["level_text"] += SAN_NOTE["miri"]
+_with_sanitizers("C08", lambda seed: miri_shards("ws_swarm", "vws", "ws_swarm", 3, ["--histories", "24", "--budget_s", "240"]))
+PLANS["C08"]["level_text"] += SAN_NOTE["miri"]
+_with_sanitizers("C09", lambda seed: miri_shards("ws_swarm", "vws", "ws_swarm", 3, ["--histories", "24", "--budget_s", "240"]))
+PLANS["C09"]["level_text"] += SAN_NOTE["miri"]
+_with_sanitizers("C13", lambda seed: miri_shards("codec_udp", "vproto", "codec_udp", 3, ["--messages", "500", "--budget_s", "240"]))
+PLANS["C13"]["level_text"] += SAN_NOTE["miri"]
+_with_sanitizers("C14", lambda seed: miri_shards("codec_http", "vproto", "codec_http", 3, ["--messages", "400", "--budget_s", "240"]))
+PLANS["C14"]["level_text"] += SAN_NOTE["miri"]
+_with_sanitizers("C05", lambda seed: miri_shards("udp_validator", "vudp", "udp_validator", 2, ["--rounds", "300", "--budget_s", "240"]))
+PLANS["C05"]["level_text"] += SAN_NOTE["miri"]
+_with_sanitizers("C04", lambda seed: [san_step("tsan_udp_stress", "tsan", "vudp", "udp_stress", ["--rounds", "1500", "--budget_s", "150"]),
+                                      san_step("tsan_udp_sched", "tsan", "vudp", "udp_sched", ["--max_leaves", "6000", "--budget_s", "150"])])
+PLANS["C04"]["level_text"] += SAN_NOTE["tsan"]
+_with_sanitizers("C06", lambda seed: [san_step("asan_contract_uring_w2", "asan", "vudp", "udp_live", ["--scenario", "contract", "--backend", "uring", "--workers", "2", "--datagrams", "6000"], crash_is_violation=True)])
+PLANS["C06"]["level_text"] += SAN_NOTE["asan"]
+_with_sanitizers("C18", lambda seed: [san_step("asan_buffers_uring", "asan", "vudp", "udp_live", ["--scenario", "buffers", "--backend", "uring"], crash_is_violation=True)])
+PLANS["C18"]["level_text"] += SAN_NOTE["asan"]
+_with_sanitizers("C12", lambda seed: [san_step("asan_contract_uring_w1", "asan", "vudp", "udp_live", ["--scenario", "contract", "--backend", "uring", "--workers", "1", "--datagrams", "6000"], crash_is_violation=True)])
+PLANS["C12"]["level_text"] += SAN_NOTE["asan"]
